@@ -3,6 +3,7 @@ package fragswarm
 import (
 	"context"
 	"encoding/binary"
+	"math"
 	"runtime"
 	"sync"
 	"time"
@@ -54,10 +55,10 @@ func newSwarm[A p2p.Addr](x p2p.Swarm[A], mtu int) *swarm[A] {
 }
 
 func (s *swarm[A]) Tell(ctx context.Context, addr A, data p2p.IOVec) error {
-	if p2p.VecSize(data) > s.mtu {
+	underMTU := s.Swarm.MTU() - Overhead
+	if underMTU < 1 || p2p.VecSize(data) > s.MTU() {
 		return p2p.ErrMTUExceeded
 	}
-	underMTU := s.Swarm.MTU() - Overhead
 	s.mu.Lock()
 	id := s.msgIDs[keyForAddr(addr)]
 	s.msgIDs[keyForAddr(addr)]++
@@ -154,6 +155,13 @@ func (s *swarm[A]) handleTell(ctx context.Context, x p2p.Message[A]) error {
 }
 
 func (s *swarm[A]) MTU() int {
+	// part and total travel as uint8: at most 255 fragments per message
+	if max := math.MaxUint8 * (s.Swarm.MTU() - Overhead); max < s.mtu {
+		if max < 0 {
+			return 0
+		}
+		return max
+	}
 	return s.mtu
 }
 
